@@ -156,7 +156,12 @@ func TestC07(t *testing.T) {
 			CheckProp(t, "C07", "c07", tn, func(rt *rapid.T) *CaseStream {
 				v, _ := GenValue(rt, tn, smallOpts())
 				c := &CaseStream{Items: []*Value{v}}
-				switch rapid.IntRange(0, 4).Draw(rt, "tailkind") {
+				switch rapid.IntRange(0, 5).Draw(rt, "tailkind") {
+				case 5: // a long tail: the unread total is near a multiple of 64 KiB (lengths compared in narrow arithmetic)
+					el := len(Render(v, nil).Bytes)
+					k := rapid.IntRange(1, 3).Draw(rt, "tailk")
+					l := 65536*k - el + rapid.IntRange(0, el+8).Draw(rt, "taild")
+					c.Tail = expandBytes(max(1, l), rapid.Uint64().Draw(rt, "tailsalt"))
 				case 0: // no tail
 				case 1: // looks like the start of another message of the same type
 					o, _ := GenValue(rt, tn, smallOpts())
@@ -176,7 +181,10 @@ func TestC07(t *testing.T) {
 				}
 				Col.Case(Hash64(JSONOf(c)), nt, cls...)
 				Col.Program(tn)
-				if nt && Col.WantSample("single+tail") && size < 200 {
+				if len(c.Tail) > 60000 {
+					cls = append(cls, "tail>60KB")
+				}
+				if nt && Col.WantSample("single+tail") && size < 200 && len(c.Tail) < 200 {
 					Col.Sample("single+tail", c)
 				}
 				return c
